@@ -13,7 +13,12 @@ import math
 
 import numpy as np
 
-R_EARTH = 6378.1  # km (IAU nominal equatorial radius, the value the simulator documents)
+import os as _os
+
+# km (IAU nominal equatorial radius, the value the simulator documents). A child interpreter that switches astropy's
+# process-wide constants version (see core.ENVS_CONSTANTS) is told the radius that version defines: the Earth radius is
+# a PARAMETER of the geometric model, the oracle only has to use the one the package is configured with.
+R_EARTH = float(_os.environ.get("NSSVERIF_R_EARTH", "6378.1"))
 
 
 def unit(lat, lon):
